@@ -311,6 +311,9 @@ class FlexiblePaxosNode(Entity):
 
         self._current_ballot = ballot
         self._leader = ballot.node_id
+        if ballot.node_id != self.name:
+            # Accepting another node's ballot means we no longer lead
+            self._is_leader = False
 
         if slot > self._log.last_index:
             self._log.append(ballot.number, command)
